@@ -109,6 +109,13 @@ pub fn curated(ctx: &Ctx) -> Vec<BuildSpec> {
     s.summary = "s".repeat(8_193);
     s.description = Some("d".repeat(65_537));
     v.push(s);
+    // the whole character domain in one text: every Unicode scalar value except NUL, in code-point order and (for the
+    // changelog) the Basic Multilingual Plane backwards
+    let mut s = one_file();
+    s.name = "all-scalars".into();
+    s.description = Some((1..0x11_0000u32).filter_map(char::from_u32).collect());
+    s.changelog = vec![("A <a@b>".into(), (1..0x1_0000u32).rev().filter_map(char::from_u32).collect(), 1_500_000_000)];
+    v.push(s);
     let mut s = BuildSpec::minimal();
     s.name = "many-files".into();
     s.compression = Comp::Gzip(1);
